@@ -319,3 +319,32 @@ func (p *vpPair) destroy() {
 	syscall.Munmap(p.memB)
 	syscall.Close(p.bufFd)
 }
+
+
+// vpScribbleRecycled: a buffer that is pushed back onto a free list belongs to nobody, its payload is "don't care". When
+// bufferList.push is instrumented with the entry rule the payload is overwritten at that moment, so that any later use of
+// the bytes by the previous holder (a message assembled from slices that were recycled first, a zero-copy view handed out
+// and not pinned, ...) shows up deterministically instead of needing a concurrent allocation in the window.
+const vpRecycledByte = 0xDD
+
+var vpRecycleScribbles uint64
+
+func init() {
+	vsEntryHook = func(fn string, arg interface{}) {
+		if fn != "bufferList.push" {
+			return
+		}
+		b, ok := arg.(*bufferSlice)
+		if !ok || b == nil || !b.isFromShm {
+			return
+		}
+		d := b.data
+		if int(b.cap) <= cap(d) {
+			d = d[:b.cap]
+		}
+		for i := range d {
+			d[i] = vpRecycledByte
+		}
+		atomic.AddUint64(&vpRecycleScribbles, 1)
+	}
+}
